@@ -104,27 +104,29 @@ Proof.
     rewrite <- !app_assoc. change (drop_n (0 * 4) (le32 0 ++ flat_map le32 rs' ++ le32 n)) with (le32 0 ++ flat_map le32 rs' ++ le32 n).
     rewrite de32_le32 by lia. replace (nlen (encp I es) <? 0) with false by lia. reflexivity. }
   assert (Hempty : es = [] -> n = 1) by (intros ->; reflexivity).
-  unfold block_init. rewrite Hsz.
-  replace (E + 4 * n + 4 <? 4) with false by lia.
   assert (Hlast : drop_n (E + 4 * n + 4 - 4) (encp I es ++ TR) = le32 n).
   { subst TR. rewrite !app_assoc. apply drop_n_app_exact.
     rewrite nlen_app, flat_map_le32_length, Hrslen. fold E. lia. }
-  unfold read32. replace (E + 4 * n + 4 <? E + 4 * n + 4 - 4 + 4) with false by lia.
-  rewrite Hlast. rewrite <- (app_nil_r (le32 n)) at 1. rewrite de32_le32 by lia. cbn [rbind].
-  replace ((E + 4 * n + 4 - 4) / 4 <? n) with false by lia.
-  eexists. eexists. split; [reflexivity|].
-  unfold biter_create. cbn [blk_size blk_data blk_len blk_restarts].
-  replace (E + 4 * n + 4 <? 4) with false by lia.
-  unfold read32. replace (E + 4 * n + 4 <? E + 4 * n + 4 - 4 + 4) with false by lia.
-  rewrite Hlast. rewrite <- (app_nil_r (le32 n)) at 1. rewrite de32_le32 by lia. cbn [rbind].
-  replace (n =? 0) with false by lia.
-  replace (E + 4 * n + 4 - (1 + n) * 4) with E by lia.
   assert (Hrarr : drop_n E (encp I es ++ TR) = TR) by (apply drop_n_nlen_app).
-  rewrite Hrarr.
-  split; [reflexivity|].
+  set (blk0 := mk_block (encp I es ++ TR) (E + 4 * n + 4) (E + 4 * n + 4) E).
+  set (it0 := mk_biter (encp I es ++ TR) false E n TR E n [] 0 0 (encp I es ++ TR) (encp I es ++ TR) SOk).
+  assert (Hbi : block_init (encp I es ++ TR) = Ok blk0).
+  { unfold block_init. rewrite Hsz.
+    replace (E + 4 * n + 4 <? 4) with false by lia.
+    unfold read32. replace (E + 4 * n + 4 <? E + 4 * n + 4 - 4 + 4) with false by lia.
+    rewrite Hlast. rewrite <- (app_nil_r (le32 n)) at 1. rewrite de32_le32 by lia. cbn [rbind].
+    replace ((E + 4 * n + 4 - 4) / 4 <? n) with false by lia.
+    unfold blk0. replace (E + 4 * n + 4 - (1 + n) * 4) with E by lia. reflexivity. }
+  assert (Hbc : biter_create blk0 = Ok it0).
+  { unfold biter_create, blk0. cbn [blk_size blk_data blk_len blk_restarts].
+    replace (E + 4 * n + 4 <? 4) with false by lia.
+    unfold read32. replace (E + 4 * n + 4 <? E + 4 * n + 4 - 4 + 4) with false by lia.
+    rewrite Hlast. rewrite <- (app_nil_r (le32 n)) at 1. rewrite de32_le32 by lia. cbn [rbind].
+    replace (n =? 0) with false by lia. rewrite Hrarr. reflexivity. }
+  exists blk0, it0. split; [exact Hbi|]. split; [exact Hbc|].
   exists TR, n. split.
   - constructor; assumption.
-  - cbn [sim]. unfold invalid, statics.
+  - cbn [sim]. unfold invalid, statics, it0.
     cbn [bi_data bi_empty bi_restarts bi_num bi_rarr bi_status bi_cur].
     split; [repeat split; reflexivity|]. split; [|reflexivity].
     unfold binv1. cbn [bi_data bi_restarts bi_num bi_rarr bi_ridx bi_vrest bi_voff bi_vlen bi_next].
